@@ -191,6 +191,29 @@ fn check_text(c: &TextCase, reps: usize, obs: &mut Obs) -> Verdict {
             Err(p) => return Verdict::Fail(format!("text diff: {}", p)),
         }
     }
+    // fresh threads (fresh hasher keys), str and [u8]
+    {
+        let outs: Vec<Option<(Vec<DiffOp>, Vec<DiffOp>)>> = std::thread::scope(|s| {
+            let hs: Vec<_> = (0..2)
+                .map(|_| {
+                    s.spawn(|| {
+                        std::panic::catch_unwind(std::panic::AssertUnwindSafe(|| {
+                            let cfg = config(c.alg);
+                            (diff_str(&cfg, tok, o, n).ops().to_vec(), diff_bytes(&cfg, tok, o.as_bytes(), n.as_bytes()).ops().to_vec())
+                        }))
+                        .ok()
+                    })
+                })
+                .collect();
+            hs.into_iter().map(|h| h.join().ok().flatten()).collect()
+        });
+        for x in outs {
+            match x {
+                Some((a, b)) if a == so && b == so => {}
+                other => return Verdict::Fail(format!("{} {}: a fresh thread gives {:?}, this thread gave {:?}", alg_name(c.alg), TOKENIZERS[tok as usize], other, so)),
+            }
+        }
+    }
     // one configuration object and the same two String buffers used for an earlier diff of other
     // texts of the same lengths (buffers cleared and refilled in place: same address, same length)
     {
